@@ -242,7 +242,10 @@ def stub_shard_worker(job):
             except Exception as e:  # pylint: disable=broad-except
                 import traceback
 
-                col.violation("impl-violation", "RunExperiment raised %s: %s for versions %r (mode %s, table %s, --at-least candidates %r)" % (type(e).__name__, e, list(zip(tsl, cs)), mode, tab["name"], als),
+                # the code under test asking the STUB context for something the stub does not have (a new Git / VersionIndex method) says
+                # nothing about the property: the stub no longer fits -- a broken tie, no failing input (the real-git parts judge the change)
+                stub_gap = isinstance(e, AttributeError) and any(n in str(e) for n in ("StubGit", "StubIndex", "StubCtx", "StubTaskIndex", "_Stub"))
+                col.violation("tie-broken" if stub_gap else "impl-violation", "RunExperiment raised %s: %s for versions %r (mode %s, table %s, --at-least candidates %r)" % (type(e).__name__, e, list(zip(tsl, cs)), mode, tab["name"], als),
                               {"input": {"part": "stub", "mode": mode, "table": tab_json(tab), "timestamps": list(tsl), "commits": list(cs), "at_least": list(als)},
                                "impl_observation": traceback.format_exc()[-1500:], "oracle_verdict": "no exception"}, match_key={"part": "stub-raise"}, size=len(tsl))
                 sel, runs = None, [False] * len(als)
@@ -307,7 +310,9 @@ def part_stub(chk, impl, tier):
         for smp in out["samples"]:
             chk.sample(smp)
         for args, kw in out["violations"]:
-            if sum(1 for v in chk.violations if v["kind"] == "impl-violation") < 25:
+            if sum(1 for v in chk.violations if v["kind"] in ("impl-violation", "tie-broken")) < 25:
+                if args[0] == "tie-broken":
+                    kw = dict(kw, found_input=False)
                 chk.violation(*args, **kw)
         defs = STUB_DEFS % {
             "tables": tables_defs(tab),
